@@ -25,15 +25,37 @@ class Outcome:
         self.log = [] if log is None else log   # ("submit"|"invoke"|"call"|"ret"|"done", path tuple) + whatever recorders add
         self.branching = []      # n at each decision point (n >= 2)
         self.choices = []        # index chosen at each decision point
+        self.eager = []          # choices taken at submit time (see Chooser)
         self.max_pending = 0
         self.tasks = 0
 
 
 class Chooser:
+    """schedule: list of ints (completion order), or {"order": [...], "eager": [...]}.  The eager stream is
+    consulted at every submit() of a harness-owned pool: value v picks v % (pending+1); 0 = nothing completes
+    before the submitting thread goes on (the default when the stream is exhausted), i > 0 = pending task i-1
+    completes first (a worker thread that is faster than the submitter)."""
+
     def __init__(self, schedule, outcome):
-        self.schedule = list(schedule)
+        if isinstance(schedule, dict):
+            self.schedule = list(schedule.get("order", []))
+            self.eager = list(schedule.get("eager", []))
+        else:
+            self.schedule = list(schedule)
+            self.eager = []
         self.k = 0
+        self.ke = 0
         self.o = outcome
+
+    def pick_eager(self, npending):
+        if self.ke >= len(self.eager):
+            return 0
+        c = self.eager[self.ke] % (npending + 1)
+        self.ke += 1
+        self.o.eager.append(c)
+        if c:
+            self.o.max_pending = max(self.o.max_pending, npending)
+        return c
 
     def pick(self, n):
         self.o.max_pending = max(self.o.max_pending, n)
@@ -49,10 +71,11 @@ class Chooser:
 class ManualPool(ThreadPoolExecutor):
     """A ThreadPoolExecutor whose submit() only records the task; the harness runs tasks itself."""
 
-    def __init__(self, outcome):
+    def __init__(self, outcome, chooser=None):
         ThreadPoolExecutor.__init__(self, max_workers=1)
         self.pending = []
         self.o = outcome
+        self.chooser = chooser
 
     def submit(self, fn, *a, **kw):
         f = Future()
@@ -64,6 +87,10 @@ class ManualPool(ThreadPoolExecutor):
         self.o.log.append(("submit", path))
         self.o.tasks += 1
         self.pending.append((f, fn, a, kw, path))
+        if self.chooser is not None:
+            c = self.chooser.pick_eager(len(self.pending))
+            if c:
+                self.run(c - 1)
         return f
 
     def run(self, i):
@@ -99,9 +126,9 @@ def run_threadpool(schema, req, world, schedule, extra=None, log=None):
     world.timeline = o.log
     rt = ThreadPoolRuntime(max_workers=1)
     rt._inner.shutdown(wait=False)
-    pool = ManualPool(o)
-    rt._inner = pool
     ch = Chooser(schedule, o)
+    pool = ManualPool(o, ch)
+    rt._inner = pool
     try:
         fut = process_graphql_query(schema, req.get("document") or req["text"], variables=req["variables"],
                                     operation_name=req["operation_name"], context=world, runtime=rt, **(extra or {}))
@@ -157,7 +184,7 @@ def run_asyncio(schema, req, world, schedule, in_thread, extra=None, log=None):
 
     async def main():
         loop = asyncio.get_running_loop()
-        pool = ManualPool(o)
+        pool = ManualPool(o, ch)
         loop.set_default_executor(pool)
         world.sched = {"loop": loop, "gates": [], "outcome": o}
         gates = world.sched["gates"]
